@@ -7,6 +7,7 @@ import (
 
 	"github.com/tokenized/pkg/bitcoin"
 	"github.com/tokenized/pkg/wire"
+	"github.com/tokenized/spynode/internal/verif/core"
 )
 
 // oracleBlockFetch (C13, node level): judges the timestamped getdata(block) messages the node sent
@@ -127,4 +128,41 @@ func (w *World) bootTrunk(n string) bool {
 	return b.height <= w.cfg.InitialChain && b.boot
 }
 
-var _ = bitcoin.Hash32{}
+// oracleWindowRequested (C13): every block in the node's download window (requested-but-unprocessed
+// list of the request state) has actually been asked for on the current trusted connection - a
+// window entry nobody was asked for can never be filled, and the window is processed in order.
+func (w *World) oracleWindowRequested() {
+	if w.P == nil || w.Node == nil {
+		return
+	}
+	f, ok := core.Field(w.Node, "state", "blocksRequested")
+	if !ok {
+		return
+	}
+	asked := map[bitcoin.Hash32]bool{}
+	for _, m := range w.P.recvLog {
+		if gd, ok := m.(*wire.MsgGetData); ok {
+			for _, iv := range gd.InvList {
+				if iv.Type == wire.InvTypeBlock {
+					asked[iv.Hash] = true
+				}
+			}
+		}
+	}
+	for i := 0; i < f.Len(); i++ {
+		e := f.Index(i)
+		for e.Kind().String() == "ptr" {
+			e = e.Elem()
+		}
+		var h bitcoin.Hash32
+		hv := e.FieldByName("hash")
+		for j := 0; j < 32; j++ {
+			h[j] = byte(hv.Index(j).Uint())
+		}
+		if !asked[h] {
+			w.fail("C13", "window-entries-requested", "a block sits in the download window although it was never requested from the peer",
+				fmt.Sprintf("window entry %d (%s) has no getdata on connection %d", i, w.Tree.byHash[h], w.P.gen))
+			return
+		}
+	}
+}
